@@ -32,8 +32,10 @@ def r02_1(rep, mod, rule='R02.1'):
               if ok else {'missing': 'implied.clear()',
                           'path': witness_path(cfg, cfg.entry, clear)},
               construct='clear', node=f)
-    # ancestors = self._calculate_sro()
-    calc = pred_of('$a = self._calculate_sro()', 'exec')
+    # ancestors = self._calculate_sro()   (possibly wrapped in tuple()/list())
+    forms = ['$a = self._calculate_sro()', '$a = tuple(self._calculate_sro())',
+             '$a = list(self._calculate_sro())']
+    calc = any_pred(*[pred_of(p, 'exec') for p in forms])
     okc = must(cfg, calc)
     rep.check(rule, site, okc,
               'the resolution order is recomputed (self._calculate_sro()) on '
@@ -42,15 +44,23 @@ def r02_1(rep, mod, rule='R02.1'):
                'path': witness_path(cfg, cfg.entry, calc)},
               construct='recompute', node=f)
     anc = None
+    wrapped = False
     for n in walk_local(f):
-        e = match('$a = self._calculate_sro()', n, 'exec') if isinstance(n, ast.Assign) else None
-        if e is not None and isinstance(e['a'], ast.Name):
-            anc = e['a'].id
+        if not isinstance(n, ast.Assign):
+            continue
+        for k, p in enumerate(forms):
+            e = match(p, n, 'exec')
+            if e is not None and isinstance(e['a'], ast.Name):
+                anc = e['a'].id
+                wrapped = k == 1
     if anc is None:
         rep.check(rule, site, False, 'result of _calculate_sro() is not bound to a name',
                   construct='source', node=f)
         return None
-    sro = pred_of('self.__sro__ = tuple(%s)' % anc, 'exec')
+    sro_forms = ['self.__sro__ = tuple(%s)' % anc]
+    if wrapped:
+        sro_forms.append('self.__sro__ = %s' % anc)
+    sro = any_pred(*[pred_of(p, 'exec') for p in sro_forms])
     oksro = must(cfg, sro)
     rep.check(rule, site, oksro,
               '__sro__ = tuple(<the computed order>) on every path',
